@@ -148,8 +148,6 @@ MUTANTS = [
       (ED, '''    if element.to_bytes() != bytes:
         raise ValueError("element encoding is not canonical")
 ''', '''''')]),
- dict(name="ed-length-check-only-upper", props=["C05", "C02"], edits=[(ED,
-      '''    if len(bytes) != 32:''', '''    if len(bytes) < 32:''')]),
  dict(name="ed-no-subgroup-check", props=["C05"], edits=[(ED,
       '''    if not is_extended_zero(P.scalarmult(L).XYTZ):
         raise ValueError("element is not in the right group")
@@ -159,11 +157,11 @@ MUTANTS = [
       (ED, '''    if element.to_bytes() != bytes:
         raise ValueError("element encoding is not canonical")
 ''', '''''')]),
- dict(name="int-decoder-reduces-mod-p", props=["C05", "C02"], edits=[(GR,
+ dict(name="int-decoder-reduces-mod-p", props=["C05"], edits=[(GR,
       '''        i = bytes_to_number(b)
         if i <= 0 or i >= self.p:   # Zp* excludes 0''', '''        i = bytes_to_number(b) % self.p
         if i <= 0 or i >= self.p:   # Zp* excludes 0''')]),
- dict(name="int-decoder-pads-short-input", props=["C05", "C02"], edits=[(GR,
+ dict(name="int-decoder-pads-short-input", props=["C05"], edits=[(GR,
       '''        assert isinstance(b, bytes)
         assert len(b) == self.element_size_bytes
         i = bytes_to_number(b)
@@ -204,6 +202,9 @@ def inv(x):
 
 # behaviour-preserving refactors: every check must stay at exit 0
 EQUIVALENT = [
+ # over-long strings are still refused by the re-encoding comparison
+ dict(name="equiv-ed-length-check-only-lower-bound", edits=[(ED,
+      '''    if len(bytes) != 32:''', '''    if len(bytes) < 32:''')]),
  dict(name="equiv-reflection-on-raw-bytes", edits=[(SP,
       '''        if inbound_elem.to_bytes() == self.outbound_message:''',
       '''        if self.inbound_message == self.outbound_message:''')]),
